@@ -479,6 +479,7 @@ LastChanceOk(s, id, o, res, vfail) ==
                                /\ (o.retain => s.settings.ret))
          /\ (o.need = "wild" => s.settings.wild)
          /\ (o.need = "shared" => s.settings.shared)
+         /\ (o.need = "sharedwild" => s.settings.shared /\ s.settings.wild)      \* a shared subscription whose filter part has a wildcard needs both
 
 \* on_current_operation_fully_written
 FullyWritten(s, res) ==
